@@ -148,6 +148,57 @@ pub fn check_values(code: u16, vals: &[Val]) -> Vec<Finding> {
             }
         },
     }
+    // (b'') layout of a type whose names must not be compressed (RFC 3597 section 4): when every
+    // name inside the RDATA has appeared earlier in the message, the compressing serialiser still
+    // emits RDLENGTH + RDATA exactly as the uncompressed RFC encoding has them
+    let names: Vec<(&crate::refmodel::RefName, schema::Comp)> = vals
+        .iter()
+        .zip(sch.fields.iter().filter(|(_, k)| !matches!(k, schema::Kind::GwType)))
+        .filter_map(|(v, (_, k))| match (v, k) {
+            (Val::Name(n), schema::Kind::Name(c)) => Some((n, *c)),
+            _ => None,
+        })
+        .collect();
+    if !names.is_empty() && names.iter().all(|(_, c)| matches!(c, schema::Comp::Never)) && names.iter().any(|(n, _)| !n.0.is_empty()) {
+        let mut p2 = RefPacket { id: 0x0a0b, flags: F_QR | F_AA, ..Default::default() };
+        for (n, _) in &names {
+            // the name itself and its parent are both on the wire before the record
+            p2.questions.push(RefQ { name: (*n).clone(), qtype: 1, qclass: 1, unicast: false });
+        }
+        let mut r2 = rec.clone();
+        if let Some((n, _)) = names.iter().find(|(n, _)| n.0.len() > 1) {
+            let mut owner = vec![crate::gen::b(b"host")];
+            owner.extend(n.0[1..].iter().cloned());
+            if owner.iter().map(|l| l.0.len() + 1).sum::<usize>() + 1 <= 255 {
+                r2.name = crate::refmodel::RefName(owner);
+            }
+        }
+        p2.answers.push(r2);
+        let mut want = (enc.len() as u16).to_be_bytes().to_vec();
+        want.extend_from_slice(&enc);
+        let r = guarded(|| to_lib(&p2).and_then(|l| l.build_bytes_vec_compressed().map_err(|e| format!("{:?}", e))));
+        match r {
+            Err(pn) => out.push(finding(format!("C10|{}|build-compressed-shared|{}", mn, pn.sig()), format!("{:?}", pn), case.clone())),
+            Ok(Err(e)) => {
+                // a name that cannot be a question name is the caller's error, not a layout matter
+                let _ = e;
+            }
+            Ok(Ok(bytes)) => {
+                if enc.len() <= 65535 && !bytes.windows(want.len()).any(|w| w == &want[..]) {
+                    out.push(finding(
+                        format!("C10|{}|build-compressed-shared|rdata-not-verbatim", mn),
+                        format!(
+                            "{} names must be written in full: after the same names in the question section the compressed build {} does not contain RDLENGTH+RDATA {} of the RFC encoding",
+                            mn,
+                            crate::engine::truncate(&hex(&bytes), 400),
+                            crate::engine::truncate(&hex(&want), 200)
+                        ),
+                        case.clone(),
+                    ));
+                }
+            }
+        }
+    }
     out
 }
 
@@ -261,7 +312,7 @@ fn seqs<T: Copy>(alpha: &[T], max: usize) -> Vec<Vec<T>> {
 
 pub fn run(ctx: &Ctx) {
     let thorough = ctx.tier == crate::engine::Tier::Thorough;
-    ctx.set_rule("per type: all value tuples with <= k deviations from byte-asymmetric defaults (k=2; full product when the schema has <= 3 fields, <= 4 with wider domains in the thorough tier), each parsed from its reference encoding (alone and followed by another record) and built through constructors, RDATA compared byte for byte; rejection families: LOC versions 1..=255, SVCB key sequences over {0,1,2}^<=3, NSEC window sequences over {0,1,2,255}^<=3, every inner length set one past the end of the RDATA. non-trivial = tuple differs from the defaults");
+    ctx.set_rule("per type: all value tuples with <= k deviations from byte-asymmetric defaults (k=2; full product when the schema has <= 3 fields, <= 4 with wider domains in the thorough tier), each parsed from its reference encoding (alone and followed by another record) and built through constructors, RDATA compared byte for byte; for the types whose names must not be compressed (SRV, NAPTR, KX, RRSIG, NSEC, SVCB, HTTPS) each tuple is also built compressed behind questions that carry the same names, and RDLENGTH + RDATA must appear exactly as in the uncompressed RFC encoding; rejection families: LOC versions 1..=255, SVCB key sequences over {0,1,2}^<=3, NSEC window sequences over {0,1,2,255}^<=3, every inner length set one past the end of the RDATA. non-trivial = tuple differs from the defaults");
     ctx.assume("schemas transcribed from RFC 1035/1183/1706/1876/2782/3403/2230/4398/4034/4025/4701/6844/7043/8976/9460; validated at start-up against the 30 dnspython-generated sample records (must decode and re-encode byte for byte)");
     ctx.assume("outside the checked domain: ISDN without sub-address, NSAP other than the 20-octet layout, TXT with zero strings, NSEC bitmap lengths outside 1..=32 (the library's data model cannot express or does not police them)");
     match crate::refmodel::selfcheck_samples() {
